@@ -84,13 +84,14 @@ class Obligation:
 
 
 class State:
-    __slots__ = ("locals", "heap", "pc", "resume")
+    __slots__ = ("locals", "heap", "pc", "resume", "writes")
 
     def __init__(self):
         self.locals: dict[str, V] = {}
         self.heap: dict[tuple, object] = {}
         self.pc: list = []
         self.resume: "State | None" = None   # generator verification: snapshot at the last resumption point
+        self.writes: dict = {}               # heap key -> list of written object refs, or None (= anywhere)
 
     def copy(self) -> "State":
         s = State()
@@ -98,7 +99,14 @@ class State:
         s.heap = dict(self.heap)
         s.pc = list(self.pc)
         s.resume = self.resume
+        s.writes = {k: (None if v is None else list(v)) for k, v in self.writes.items()}
         return s
+
+    def note_write(self, key, obj):
+        if obj is None:
+            self.writes[key] = None
+        elif self.writes.get(key, []) is not None:
+            self.writes.setdefault(key, []).append(obj)
 
     def snapshot(self) -> "State":
         s = self.copy()
@@ -217,8 +225,9 @@ class Engine:
         if key[0] == "dv" and ty.is_reflike(key[2]) and ty.is_reflike(key[1]):
             pass
 
-    def hset(self, st: State, key: tuple, arr):
+    def hset(self, st: State, key: tuple, arr, obj=None):
         st.heap[key] = arr
+        st.note_write(key, obj)
 
     def fld_key(self, cls: str, name: str):
         """Resolve a field on static class `cls` (searching bases, then subclasses)."""
@@ -285,14 +294,14 @@ class Engine:
             st.assume(self.imm_fn(owner, name, t)(obj.z) == val.z)
             return
         key = ("fld", owner, name, t)
-        self.hset(st, key, z3.Store(self.h(st, key), obj.z, val.z))
+        self.hset(st, key, z3.Store(self.h(st, key), obj.z, val.z), obj.z)
 
     def list_seq(self, st: State, lv: V):
         return z3.Select(self.h(st, ("list", lv.t.args[0])), lv.z)
 
     def set_list_seq(self, st: State, lv: V, seq):
         key = ("list", lv.t.args[0])
-        self.hset(st, key, z3.Store(self.h(st, key), lv.z, seq))
+        self.hset(st, key, z3.Store(self.h(st, key), lv.z, seq), lv.z)
 
     def dict_keys(self, st, dv: V):
         return z3.Select(self.h(st, ("dk", dv.t.args[0])), dv.z)
@@ -303,10 +312,10 @@ class Engine:
     def set_dict(self, st, dv: V, keys=None, vals=None):
         if keys is not None:
             k = ("dk", dv.t.args[0])
-            self.hset(st, k, z3.Store(self.h(st, k), dv.z, keys))
+            self.hset(st, k, z3.Store(self.h(st, k), dv.z, keys), dv.z)
         if vals is not None:
             k = ("dv", dv.t.args[0], dv.t.args[1])
-            self.hset(st, k, z3.Store(self.h(st, k), dv.z, vals))
+            self.hset(st, k, z3.Store(self.h(st, k), dv.z, vals), dv.z)
 
     def set_arr(self, st, sv: V):
         return z3.Select(self.h(st, ("set", sv.t.args[0])), sv.z)
@@ -318,6 +327,20 @@ class Engine:
         r = fresh(name, ty.RefSort)
         st.assume(r != ty.null)
         st.assume(z3.Not(z3.Select(self.alloc(st), r)))
+        # facts that survive path-condition pruning: not part of the initial heap (allocation only grows), and a
+        # birth stamp per allocation point (objects of the initial heap have stamp 0): different stamps, different objects
+        if ("alloc",) not in self.heap0:
+            self.heap0[("alloc",)] = z3.Const("H0_alloc", self.key_sort(("alloc",)))
+        al0 = self.heap0[("alloc",)]
+        st.assume(z3.Not(z3.Select(al0, r)))
+        birth = self.ufn("birth", ty.RefSort, z3.IntSort())
+        self._births = getattr(self, "_births", 0) + 1
+        st.assume(birth(r) == self._births)
+        if not getattr(self, "_birth_axiom", False):
+            self._birth_axiom = True
+            x = z3.Const("bx", ty.RefSort)
+            self.extra_axioms.append(z3.ForAll([x], z3.Implies(z3.Select(al0, x), birth(x) == 0), patterns=[z3.Select(al0, x)]))
+            self.extra_axioms.append(birth(ty.null) == 0)
         self.hset(st, ("alloc",), z3.Store(self.alloc(st), r, True))
         return V(t, r)
 
@@ -1570,6 +1593,12 @@ class Engine:
                     res = a if a is res or a.eq(res) else z3.If(g, a, res)
                 into.heap[key] = res
         merge_heaps(states, m)
+        for s in states:
+            for k, v in s.writes.items():
+                if v is None:
+                    m.writes[k] = None
+                elif m.writes.get(k, []) is not None:
+                    m.writes.setdefault(k, []).extend(v)
         rs = [s.resume for s in states]
         if any(r is not None for r in rs):
             if all(r is rs[0] for r in rs):
